@@ -36,7 +36,9 @@ func optCfg(mask int, ps int, mlockOK bool) apix.Cfg {
 }
 
 var c13Txs = [][]apix.Op{
-	{beginW, op("mkb", nil, "p", ""), {K: "fill", P: P("p"), Key: "k", V: "M", N: 9}, op("mkb", P("p"), "q", ""), {K: "fill", P: P("p", "q"), Key: "n", V: "M", N: 6}, op("put", P("p", "q"), "a", "s"), {K: "seqset", P: P("p"), N: 4}, commit},
+	{beginW, op("mkb", nil, "p", ""), {K: "fill", P: P("p"), Key: "k", V: "M", N: 9}, op("mkb", P("p"), "q", ""), {K: "fill", P: P("p", "q"), Key: "n", V: "M", N: 6}, op("put", P("p", "q"), "a", "s"), {K: "seqset", P: P("p"), N: 4},
+		// giant keys: branch and leaf pages with overflow pages (what a free-page scan must not hand out)
+		op("mkb", nil, "r", ""), {K: "fill", P: P("r"), Key: "G", V: "s", N: 7}, commit},
 	// only the nested bucket /p/q and a new top-level bucket are touched (the parent /p is merely traversed), and the
 	// transaction outgrows a 32 KiB map: with InitialMmapSize 0 the commit remaps while nodes of /p/q are unspilled
 	{beginW, {K: "fill", P: P("p", "q"), Key: "g", V: "X", N: 14}, op("del", P("p", "q"), "n002", ""), op("mkb", nil, "q", ""), {K: "fill", P: P("q"), Key: "g", V: "M", N: 5}, commit,
